@@ -26,15 +26,17 @@ JudgeOne(i) ==
       c11 == IF isParse THEN TRUE
              ELSE o.ok = c.expect.ok /\ (o.ok => o.str = c.expect.str) /\ o.laws.derived_ok
       w11 == IF isParse \/ c11 THEN {} ELSE {"got:" \o (IF o.ok THEN o.str ELSE "error") \o " want:" \o (IF c.expect.ok THEN c.expect.str ELSE "error")}
-      c06 == o.ok => LawsOK(o.laws)
+      \* the laws hold of parsed values and of values assembled with MakeRemoteSource alike
+      c06 == (o.ok => LawsOK(o.laws)) /\ (o.make_ok => LawsOK(o.make_laws))
+      d06 == (IF o.ok /\ ~LawsOK(o.laws) THEN {o.laws.detail} ELSE {}) \cup (IF o.make_ok /\ ~LawsOK(o.make_laws) THEN {"constructed: " \o o.make_laws.detail} ELSE {})
       kf06 == IF c06 THEN "" ELSE IF "kf06" \in DOMAIN c THEN c.kf06 ELSE ""
   IN PrintT("@@" \o ToJson([fam |-> "judge", idx |-> i,
         v |-> [c07 |-> c07, w07 |-> w07, kf07 |-> "", c11 |-> c11, w11 |-> w11, kf11 |-> "",
-               c06 |-> c06, w06 |-> IF c06 THEN {} ELSE {o.laws.detail}, kf06 |-> kf06,
+               c06 |-> c06, w06 |-> d06, kf06 |-> kf06,
                c19 |-> o.panic = "", w19 |-> IF o.panic = "" THEN {} ELSE {o.panic}, kf19 |-> ""],
         l1 |-> [st |-> "", why |-> "",
                 v |-> [c07 |-> TRUE, w07 |-> {}, c11 |-> TRUE, w11 |-> {},
-                       c06 |-> kf06 = "", w06 |-> IF kf06 = "" THEN {} ELSE {o.laws.detail}, c19 |-> TRUE, w19 |-> {}]]]))
+                       c06 |-> kf06 = "", w06 |-> IF kf06 = "" THEN {} ELSE d06, c19 |-> TRUE, w19 |-> {}]]]))
 
 ASSUME \A i \in DOMAIN Obs : JudgeOne(i)
 =============================================================================
